@@ -39,7 +39,7 @@ import (
 )
 
 func init() {
-	components["wsmsg"] = &component{gen: wsmsgGen, enum: wsmsgEnum, run: wsmsgRun}
+	components["wsmsg"] = &component{gen: wsmsgGen, enum: wsmsgEnum, run: wsmsgRun, direct: wsmsgDirect}
 }
 
 // ---- session description ---------------------------------------------------------------------------
@@ -161,10 +161,12 @@ func wsmsgRun(script []string, w *bufio.Writer) {
 		var segs [][]byte
 		rest := wire
 		for _, c := range cuts {
+			n0 := c
 			if c > len(rest) {
 				c = len(rest)
 			}
-			if c > 0 {
+			// ("cut 0": an empty segment — a transport read that completes with no bytes and no error)
+			if c > 0 || n0 == 0 {
 				segs = append(segs, rest[:c])
 			}
 			rest = rest[c:]
@@ -257,7 +259,7 @@ func wsmsgRead(w *bufio.Writer, api string, async bool, max, bufSize int, segs [
 		total += len(s)
 	}
 	// every read but one per call returns at least one byte
-	st := &wsmsgStream{memStream: ms, w: w, limit: total + bound + 8}
+	st := &wsmsgStream{memStream: ms, w: w, limit: total + bound + 8 + len(segs)}
 	if err := ws.VerifAttach(st); err != nil {
 		panic(err)
 	}
@@ -270,7 +272,7 @@ func wsmsgRead(w *bufio.Writer, api string, async bool, max, bufSize int, segs [
 		ctl = append(ctl, fmt.Sprintf("%d:%s", int(mt), wsHx(payload)))
 	})
 	for _, s := range segs[:pre] {
-		ms.feed(s)
+		ms.feedRaw(s)
 	}
 	late := segs[pre:]
 	// an asynchronous read left pending: the next segment arrives; with none left the transport reports "no data"
@@ -283,7 +285,7 @@ func wsmsgRead(w *bufio.Writer, api string, async bool, max, bufSize int, segs [
 				ws.SetMaxMessageSize(max + 70000)
 			}
 			if len(late) > 0 {
-				ms.feed(late[0])
+				ms.feedRaw(late[0])
 				late = late[1:]
 				ms.pump()
 				continue
@@ -514,6 +516,7 @@ func (g *wsmsgG) cutPoints(n int, starts []int) []int {
 }
 
 func wsmsgGen(r *rng, maxops int, w *bufio.Writer) {
+	side := newRng(r.s ^ 0x5bd1e9955bd1e995)
 	g := &wsmsgG{r: r}
 	g.max = r.pick(125, 126, 127, 300, 300, 1000, 1000, 4096, 16, 2)
 	big := r.intn(60) == 0
@@ -607,6 +610,14 @@ func wsmsgGen(r *rng, maxops int, w *bufio.Writer) {
 	}
 	fmt.Fprintf(w, "! encode\n")
 	cuts := g.cutPoints(len(wire), starts)
+	// one script in four: transport reads that complete with no bytes and no error between the segments ("cut 0"; drawn from a
+	// generator of their own, so that the sessions themselves are the same with and without them)
+	if side.intn(4) == 0 {
+		for k := 1 + side.intn(3); k > 0; k-- {
+			at := side.intn(len(cuts) + 1)
+			cuts = append(cuts[:at], append([]int{0}, cuts[at:]...)...)
+		}
+	}
 	for _, c := range cuts {
 		fmt.Fprintf(w, "! cut %d\n", c)
 	}
